@@ -21,6 +21,11 @@ pub enum Amf0DeserializationError {
     #[error("Hit end of the byte buffer but was expecting more data")]
     UnexpectedEof,
 
+    /// Arrays and objects were nested deeper than the deserializer supports.  Nesting is
+    /// limited so that untrusted input cannot exhaust the stack.
+    #[error("Arrays and objects are nested too deeply")]
+    MaxNestingDepthExceeded,
+
     /// An I/O Error occurred while reading the data buffer
     #[error("Failed to read byte buffer: {0}")]
     BufferReadError(#[from] io::Error),
